@@ -607,7 +607,7 @@ def gen_packet(proto, p, rng, shape, alt_counter, depth=0):
     return gen_fields(proto, p, p.fields, rng, shape, alt_counter, depth)
 
 
-SHAPES_QUICK = ['typical', 'zero', 'max', 'min', 'neg', 'utf8', 'typical', 'typical']
+SHAPES_QUICK = ['typical', 'zero', 'max', 'min', 'neg', 'utf8', 'typical', 'long']
 SHAPES_THOROUGH = SHAPES_QUICK + ['long', 'utf8', 'typical', 'typical', 'max', 'typical', 'neg', 'typical']
 
 
